@@ -13,5 +13,19 @@ def gen(rng, **kw):
 
 
 def main(tier, seed, replay=None):
-    return world_check(PROP, THEOREMS, tier, seed, [monitor_null_build], clean_oracle=True, replay=replay, scen_gen=gen,
+    state = {"done": bool(replay)}
+
+    def monitor_killed_commands(run, where, inv, meta, hist, ii, rep):
+        # once per run: the part of "a command failed" the scripted executor bypasses (process_posix.rs classification)
+        if state["done"]:
+            return
+        state["done"] = True
+        import taskleg
+        n2, out_ = build_n2_binary()
+        if n2 is None:
+            run.tie("n2 build", out_[-1000:])
+        else:
+            run.coverage["black_box_killed_commands"] = taskleg.killed_command_leg(run, n2, random.Random(seed))
+
+    return world_check(PROP, THEOREMS, tier, seed, [monitor_null_build, monitor_killed_commands], clean_oracle=True, replay=replay, scen_gen=gen,
                        note="phony aliases used as dirtying inputs (finding F8) are excluded by the property and not generated")
